@@ -182,7 +182,7 @@ func ruleStateless(w *World, r *Report, fn *ssa.Function) {
 	isBuiltinList := func(v ssa.Value) bool {
 		a, ok := isLoad(v)
 		g, okg := a.(*ssa.Global)
-		return ok && okg && g.Name() == "builtinStatelessOperations"
+		return ok && okg && nm(g) == "builtinStatelessOperations"
 	}
 	isConfList := func(v ssa.Value) bool {
 		base, ok := loadOfField(v, "Config", "StatelessOperators")
@@ -206,7 +206,7 @@ func ruleStateless(w *World, r *Report, fn *ssa.Function) {
 			continue
 		}
 		if a, okl := isLoad(lk.X); okl {
-			if g, okg := a.(*ssa.Global); okg && g.Name() == "builtinOperators" {
+			if g, okg := a.(*ssa.Global); okg && nm(g) == "builtinOperators" {
 				r.Check(listFact(ret.Block(), isBuiltinList), rule, pos, name, what,
 					"built-in implementation, approved only under name == an element of builtinStatelessOperations",
 					"a built-in is approved without its name being found in builtinStatelessOperations")
@@ -331,7 +331,7 @@ func absorptionGate(w *World, b *ssa.BasicBlock) (bool, string) {
 				}
 			case *ssa.Call:
 				if callee := c.Call.StaticCallee(); callee != nil && f.Truth {
-					switch callee.Name() {
+					switch nm(callee) {
 					case "isOrOpNode":
 						isOr = true
 					case "isAndOpNode":
